@@ -149,6 +149,7 @@ class Canon:
                     self.run_fn(self.fns[c], stack + (p,))
             self.drop_debug_asserts(body)
             self.assert_eq_forms(body)
+            self.match_bind_guards(body)
             self.split_last_match(body)
             self.let_else(body)
             self.flatten_blocks(body)
@@ -182,6 +183,7 @@ class Canon:
             self.for_each_loops(body)
             self.fold_tuple_loops(body)
             self.fold_loops(body)
+            self.self_select(body)
             self.collect_loops(body)
             self.iter_loops(body)
             self.for_tuple_patterns(body)
@@ -755,6 +757,43 @@ class Canon:
                 blk["stmts"] = out
                 self.stats["if_assign"] = self.stats.get("if_assign", 0) + 1
 
+    def self_select(self, body):
+        """`x = if c { a } else { x };`  ->  `if c { x = a; }` (and `x = if c { x } else { a };` -> `if !c { x = a; }`): keeping the old value is
+        not an assignment (what a fold `|best, v| if v > best { v } else { best }` becomes once it is a loop)."""
+        for blk in [n for n in _walk(body) if n.get("k") == "Block"]:
+            for st in blk.get("stmts", []):
+                e = _strip(st.get("e") or {}) if st.get("k") in ("Semi", "Expr") else {}
+                if e.get("k") != "Assign" or _strip(e["l"]).get("k") != "Local":
+                    continue
+                r = _strip(e["r"])
+                if r.get("k") != "If" or r.get("else") is None:
+                    continue
+                x = _strip(e["l"])["v"]
+
+                def val(b):
+                    b = _strip(b)
+                    if b.get("k") == "Block":
+                        if b.get("stmts") or b.get("expr") is None:
+                            return None
+                        b = _strip(b["expr"])
+                    return b
+                tv, ev = val(r["then"]), val(r["else"])
+                if tv is None or ev is None:
+                    continue
+                keeps_else = ev.get("k") == "Local" and ev.get("v") == x
+                keeps_then = tv.get("k") == "Local" and tv.get("v") == x
+                if keeps_else == keeps_then:
+                    continue
+                sp = st.get("sp") or e.get("sp") or [0, 0, 0, 0]
+                newv = tv if keeps_else else ev
+                cond = r["cond"] if keeps_else else {"k": "Unary", "op": "!", "e": r["cond"], "id": self._id(), "ty": "bool", "sp": list(r["cond"].get("sp") or sp)}
+                asg = {"k": "Assign", "l": e["l"], "r": newv, "id": self._id(), "ty": "()", "sp": list(newv.get("sp") or sp)}
+                node = {"k": "If", "cond": cond, "then": {"k": "Block", "stmts": [{"k": "Semi", "e": asg, "sp": list(asg["sp"])}], "id": self._id(), "ty": "()", "sp": list(sp)},
+                        "id": self._id(), "ty": "()", "sp": list(sp)}
+                st["k"] = "Expr"
+                st["e"] = node
+                self.stats["self_select"] = self.stats.get("self_select", 0) + 1
+
     # ------------------------------------------------------------------ P11
     SOME = "std::prelude::v1::Some"
     NONE = "std::prelude::v1::None"
@@ -1244,6 +1283,53 @@ class Canon:
             m["ty"] = "()"
             self.stats["assert_eq"] = self.stats.get("assert_eq", 0) + 1
 
+    @staticmethod
+    def _readonly(e):
+        return not any(y.get("k") in ("Assign", "AssignOp", "Closure", "Ret", "Try", "Break", "Continue") or (y.get("k") == "AddrOf" and y.get("mut")) or
+                       str(y.get("adj") or "").startswith("&mut") for y in _walk(e))
+
+    def match_bind_guards(self, body):
+        """`match E { v if g(v) => A(v), w => B(w) }` (every arm an irrefutable binding or `_`, E read-only)  ->
+        `if g(E) { A(E) } else { B(E) }`: a value selected by tests on itself."""
+        for m in [y for y in _walk(body) if y.get("k") == "Match" and 1 <= len(y.get("arms", [])) <= 4]:
+            arms = m["arms"]
+            if not all(a["pat"].get("k") in ("Bind", "Wild") and not a["pat"].get("byref") and not a["pat"].get("sub") for a in arms):
+                continue
+            if arms[-1].get("guard") is not None or not all(a.get("guard") is not None for a in arms[:-1]):
+                continue
+            sc = m["scrut"]
+            if not self._readonly(sc):
+                continue
+            sp = m.get("sp") or [0, 0, 0, 0]
+
+            def inst(node, pat):
+                node = copy.deepcopy(node)
+                if pat.get("k") == "Bind":
+                    for u in [y for y in _walk(node) if y.get("k") == "Local" and y.get("v") == pat["v"]]:
+                        keep = {kk: u.get(kk) for kk in ("sp", "adj")}
+                        u.clear()
+                        u.update(copy.deepcopy(sc))
+                        for kk, vv in keep.items():
+                            if vv is not None:
+                                u[kk] = vv
+                return node
+
+            def blk(e):
+                if e.get("k") == "Block":
+                    return e
+                return {"k": "Block", "stmts": [], "expr": e, "id": self._id(), "ty": e.get("ty"), "sp": list(e.get("sp") or sp)}
+            res = blk(inst(arms[-1]["body"], arms[-1]["pat"]))
+            for a in reversed(arms[:-1]):
+                res = {"k": "If", "cond": inst(a["guard"], a["pat"]), "then": blk(inst(a["body"], a["pat"])), "else": res if res.get("k") == "Block" else blk(res),
+                       "id": self._id(), "ty": m.get("ty"), "sp": list(sp)}
+            keepm = {kk: m.get(kk) for kk in ("ty", "sp", "adj")}
+            m.clear()
+            m.update(res if res.get("k") == "If" else {"k": "Block", "stmts": [], "expr": res.get("expr"), "id": self._id()})
+            for kk, vv in keepm.items():
+                if vv is not None:
+                    m[kk] = vv
+            self.stats["match_bind_guards"] = self.stats.get("match_bind_guards", 0) + 1
+
     def split_last_match(self, body):
         """`match X.split_last() { None => A, Some((&last, rest)) => B }`  ->  `if X.is_empty() { A } else { B[last := X[len-1], rest := &X[0..len-1]] }`
         (X a Vec / slice place that B does not write)."""
@@ -1601,6 +1687,44 @@ class Canon:
                 tv.append((self.fresh, "__acc%d" % self.fresh, q.get("ty")))
         accp = cl["params"][0]
         bodye = cl["body"]
+        # the element parameter bound as a whole tuple (`|best, candidate|` over `.map(|i| (i, f(i)))`): give its components names
+        elp = cl["params"][1]
+        if elp.get("k") == "Bind" and str(elp.get("ty", "")).startswith("(") and not elp.get("mut"):
+            inner, depth, parts, cur = str(elp["ty"])[1:-1], 0, [], ""
+            for ch in inner:
+                if ch in "<([":
+                    depth += 1
+                elif ch in ">)]":
+                    depth -= 1
+                if ch == "," and depth == 0:
+                    parts.append(cur.strip())
+                    cur = ""
+                else:
+                    cur += ch
+            if cur.strip():
+                parts.append(cur.strip())
+            if len(parts) >= 2:
+                qs = []
+                for k_, ty_ in enumerate(parts):
+                    self.fresh += 1
+                    qs.append({"k": "Bind", "v": self.fresh, "name": "%s_%d" % (elp.get("name", "e"), k_), "mut": False, "byref": False, "ty": ty_})
+                for u in [y for y in _walk(bodye) if y.get("k") == "Field" and _strip(y["e"]).get("k") == "Local" and _strip(y["e"]).get("v") == elp["v"] and str(y.get("name")).isdigit() and int(y["name"]) < len(qs)]:
+                    q_ = qs[int(u["name"])]
+                    keep = {kk: u.get(kk) for kk in ("ty", "sp", "adj")}
+                    u.clear()
+                    u.update({"k": "Local", "v": q_["v"], "name": q_["name"], "id": self._id()})
+                    for kk, vv in keep.items():
+                        if vv is not None:
+                            u[kk] = vv
+                for u in [y for y in _walk(bodye) if y.get("k") == "Local" and y.get("v") == elp["v"]]:
+                    usp = u.get("sp") or sp
+                    keep = {kk: u.get(kk) for kk in ("ty", "sp")}
+                    u.clear()
+                    u.update({"k": "Tup", "es": [{"k": "Local", "v": q_["v"], "name": q_["name"], "id": self._id(), "ty": q_["ty"], "sp": list(usp)} for q_ in qs], "id": self._id()})
+                    for kk, vv in keep.items():
+                        if vv is not None:
+                            u[kk] = vv
+                cl["params"][1] = {"k": "Tuple", "ps": qs, "ty": elp.get("ty")}
 
         def local(k, spx):
             v, name, ty = tv[k]
@@ -2168,6 +2292,8 @@ class Canon:
         """(container expr, mutable[, lo, hi, incl]) for X.iter() / X.iter_mut() / &X / &mut X over a Vec / slice,
         X possibly a sub-slice X0[a..b]."""
         k = it.get("k")
+        if k == "MethodCall" and it.get("name") == "into_iter" and not it.get("args") and str(it["recv"].get("ty", "")).lstrip("&").replace("mut ", "").strip().startswith("std::vec::Vec<"):
+            return it["recv"], False          # the Vec is consumed element by element, in order: element i is v[i]
         if k == "MethodCall" and it.get("name") in ("iter", "iter_mut") and not it.get("args"):
             fnp = str(it.get("impl") or it.get("fn") or "")
             if "[T]" in fnp or "slice" in fnp or "Vec" in fnp:
